@@ -1,6 +1,6 @@
 (* C15 -- communication parameters resolve to the most specific definition. *)
 From Coq Require Import ZArith List Bool.
-From OV Require Import Base.Bytes Base.Wire Generated Model.Inherit Proofs.InheritProofs.
+From OV Require Import Base.Bytes Base.Wire Generated Model.Inherit Proofs.InheritProofs Proofs.ComparamProofs.
 Import ListNotations.
 Open Scope Z_scope.
 
@@ -38,3 +38,47 @@ Theorem C15_first_hit_refuted :
   /\ option_map cp_tag (get_comparam S cps [66] (Some 7)) = Some 2.
 Proof. vm_compute. split; reflexivity. Qed.
 Print Assumptions C15_first_hit_refuted.
+
+(* ---------- override through the hierarchy, for every hierarchy and layer ---------- *)
+(* a layer never holds two parameters for one (specification, protocol) key *)
+Theorem C15_keys_unique : forall f H L, NoDup (map ckey (comparams f H L)).
+Proof. exact comparams_keys_unique. Qed.
+Print Assumptions C15_keys_unique.
+
+(* a key defined by the layer itself resolves to its own (last) definition, whatever the parents define *)
+Theorem C15_local_definition_wins : forall f H L k c,
+  last_with k (cl_cps L) = Some c -> kget k (comparams (S f) H L) = Some c.
+Proof. exact comparams_local_wins. Qed.
+Print Assumptions C15_local_definition_wins.
+
+(* a key the layer does not define resolves as in the dictionary inherited from its parents, which are
+   folded in ascending priority order: the parent processed last which knows the key wins, a parent
+   which does not know the key changes nothing *)
+Theorem C15_inherited_when_not_local : forall f H L k,
+  last_with k (cl_cps L) = None ->
+  kget k (comparams (S f) H L) =
+  kget k (fold_left (inherit_step f H) (sort_asc (map as_layer H) (cl_parents L)) []).
+Proof. exact comparams_inherited. Qed.
+Print Assumptions C15_inherited_when_not_local.
+
+Theorem C15_last_parent_wins : forall f H k ps d p PL c,
+  find_cl (p_target p) H = Some PL -> last_with k (comparams f H PL) = Some c ->
+  kget k (fold_left (inherit_step f H) (ps ++ [p]) d) = Some c.
+Proof. exact inherited_last_parent_wins. Qed.
+Print Assumptions C15_last_parent_wins.
+
+Theorem C15_ignorant_parent_skipped : forall f H k ps d p,
+  (forall PL, find_cl (p_target p) H = Some PL -> last_with k (comparams f H PL) = None) ->
+  kget k (fold_left (inherit_step f H) (ps ++ [p]) d) = kget k (fold_left (inherit_step f H) ps d).
+Proof. exact inherited_skips_ignorant_parent. Qed.
+Print Assumptions C15_ignorant_parent_skipped.
+
+Theorem C15_override_example :
+  let P := mkCL 0 TProtocol [] [mkCp 1 None [10] [] 1; mkCp 1 (Some 7) [11] [] 2] in
+  let B := mkCL 1 TBaseVariant [mkPref 0 []] [mkCp 1 None [20] [] 3] in
+  let V := mkCL 2 TEcuVariant [mkPref 0 []; mkPref 1 []] [mkCp 2 None [30] [] 4] in
+  let H := [P; B; V] in
+  map cp_tag (comparams 4 H V) = [3; 2; 4] /\
+  option_map cp_tag (kget (1, None) (comparams 4 H V)) = Some 3.
+Proof. exact comparam_example. Qed.
+Print Assumptions C15_override_example.
